@@ -229,10 +229,44 @@ func c02SweepList(r *core.Run, e *c02Enc, pts []float32, seen *c02Seen) int64 {
 	return int64(len(pts))
 }
 
+// c02FirstPoints: sixteenths of the range, each followed by a value half a 16-bit step above it,
+// and a few values near the ends.
+func c02FirstPoints() []float32 {
+	xs := []float32{0, 1e-6, 0.0005, 0.0031}
+	for k := 1; k <= 16; k++ {
+		v := float32(k) / 16
+		xs = append(xs, math.Nextafter32(v, 0), v)
+		if k < 16 {
+			xs = append(xs, v+7.6e-6)
+		}
+	}
+	return append(xs, 0.99999, 1.5)
+}
+
 func runC02(r *core.Run) {
 	r.Rule = "ascending float32 sequences per encoder (quick: every quantiser bucket boundary and table node +/-2 ulp, 4096 points per binade, specials, out-of-range sample; thorough: every float32 bit pattern in [0,1], 2^24 out-of-range patterns, 2^23 NaN payloads) and a 33^3 x 9-alpha lattice through the colour types; non-trivial = distinct (encoder, output code, side of nearest table node) observed for 0<x<1, plus distinct lattice cells with a channel strictly inside (0,1)"
 	r.Assumptions = []string{"reference OETFs from refcolor", "rounding slack h'=1.02*h and eps=max*2^-21 are analytic float32 bounds (DESIGN.md C02)", "float->int conversion of NaN is whatever amd64 does; only absence of a panic is demanded"}
 	encs := c02Encoders()
+	// fresh process whose very first call into each encoder is at one chosen x, followed by the
+	// others in ascending order from there (a table built lazily in parts, by range, shows only
+	// for the part that is touched first)
+	if strings.HasPrefix(r.Variant, "firstpoint:") {
+		var k int
+		fmt.Sscanf(r.Variant[len("firstpoint:"):], "%d", &k)
+		xs := c02FirstPoints()
+		for i := range encs {
+			e := &encs[i]
+			for j := 0; j < len(xs); j++ {
+				x := xs[(k+j)%len(xs)]
+				if bad, kind, msg, _ := c02CheckPoint(e, x); bad {
+					r.Violate("point", e.Name+"/"+kind+"/first-point", fmt.Sprintf("%s (fresh process, first call into this encoder at x=%.9g, this is call #%d)", msg, xs[k%len(xs)], j+1), c02Case{e.Name, math.Float32bits(x), fmt.Sprint(x), 0})
+					break
+				}
+			}
+		}
+		r.AddEvals(int64(len(encs) * len(xs)))
+		return
+	}
 	// first use under contention: every encoder's very first calls come from eight goroutines
 	{
 		probe := []float32{1, 0.5, 0.25, 0.001, 0.9999, 2, 0}
@@ -305,10 +339,15 @@ func runC02(r *core.Run) {
 		mu.Unlock()
 	}
 	if r.Variant == "" {
-		for _, v := range append([]string{"decfirst@3", "decfirst+rev@1", "rev@6"}, burstVariants...) {
+		for _, v := range append([]string{"decfirst@3", "decfirst+rev@1", "rev@6", "warm@2"}, burstVariants...) {
 			r.RunVariantChild(v, 10*time.Minute, false)
 		}
-		r.Obs("fresh_process_variants", []string{"decfirst@3", "decfirst+rev@1", "rev@6"})
+		nfp := len(c02FirstPoints())
+		core.ParallelFor(nfp, 8, func(k int) {
+			r.RunVariantChild(fmt.Sprintf("firstpoint:%d@%d", k, 1+k%4), 5*time.Minute, false)
+		})
+		r.Obs("fresh_process_first_point_children", nfp)
+		r.Obs("fresh_process_variants", []string{"decfirst@3", "decfirst+rev@1", "rev@6", "warm@2"})
 	}
 	r.Obs("distinct_code_side_pairs_per_encoder", codesSeen)
 	r.Obs("quick_points_per_encoder", len(pts))
